@@ -65,9 +65,14 @@ SplitsAll == << [kind |-> "one"],
                 [kind |-> "feed", w |-> CS, eofWithData |-> TRUE],
                 [kind |-> "pieces", w |-> 1] >>
 \* byte-wise writing only for tiny contents; in the quick tier the larger contents get four of the classes
-SplitOk(k, size) ==
+\* ("quick"), in the thorough tier the larger encrypted contents do ("thorough": encrypting and decrypting costs
+\* some 50 ms per chunk)
+SplitOk(k, size, enc) ==
   /\ (k = 10 => (size[1] = 0 /\ size[2] <= 40))
   /\ ((Env("FT_SPLITS", "all") = "quick" /\ size[1] >= 16) => k \in {1, 2, 5, 8})
+  /\ ((Env("FT_SPLITS", "all") = "quick" /\ enc /\ size[1] >= 2) => k \in {1, 5, 8})
+  /\ ((Env("FT_SPLITS", "all") = "quick" /\ enc /\ size[1] >= 16) => k = 5)
+  /\ ((Env("FT_SPLITS", "all") = "thorough" /\ enc /\ size[1] >= 16) => k \in {1, 2, 5, 8})
 SplitIdx == CASE Env("FT_SPLITS", "all") = "two"    -> {1, 5}
               [] Env("FT_SPLITS", "all") = "one"    -> {1 + (Seed % 2) * 4}
               [] Env("FT_SPLITS", "all") = "bigone" -> {5}
@@ -112,7 +117,7 @@ NoNext == FALSE /\ UNCHANGED gvars
 (***************************************************************************)
 UpTail == IF Env("FT_UPTAIL", "readall") = "readall" THEN <<OpenOp, ReadAllOp>> ELSE <<>>
 UpInit == \E i \in DOMAIN SizeSeq, e \in Encs, k \in SplitIdx :
-             /\ SplitOk(k, SizeSeq[i])
+             /\ SplitOk(k, SizeSeq[i], e)
              /\ gen = "up"
              /\ par = FilePar(i, e)
              /\ pos = BigZero
@@ -169,7 +174,9 @@ SeqView == <<par, PosClass, hist[Len(hist)]>>
 (***************************************************************************)
 SCS == 128
 ScaledN(b) ==
-  CASE Env("FT_SCALED", "quick") = "quick" ->
+  CASE Env("FT_SCALED", "quick") = "small" ->
+         (CASE b = 2 -> 1..130 [] b = 3 -> 1..28 [] b = 4 -> 1..17 [] OTHER -> {})
+    [] Env("FT_SCALED", "quick") = "quick" ->
          (CASE b = 2 -> 1..130 [] b = 3 -> 1..82 [] b = 4 -> 1..257 [] OTHER -> {})
     [] Env("FT_SCALED", "quick") = "thorough" ->
          (CASE b = 2 -> 1..130 [] b = 3 -> 1..82 [] b = 4 -> 1..257 [] b = 5 -> 1..126 [] OTHER -> {})
